@@ -99,6 +99,11 @@ func main() {
 	os.Exit(3)
 }
 
+var (
+	rlog               = newRaceLog()
+	harnessOnlyReports int
+)
+
 func runInstance(i int, in checks.Instance, dl time.Time) (r vp.InstResult) {
 	t0 := time.Now()
 	r = vp.InstResult{Index: i, Name: in.Name, Bound: in.Bound, BoundCompleted: -1, Outcomes: map[string]int{}, Complete: true}
@@ -116,6 +121,18 @@ func runInstance(i int, in checks.Instance, dl time.Time) (r vp.InstResult) {
 	}
 	for b := 0; b <= in.Bound; b++ {
 		e := &mc.Explorer{Bound: b, Root: in.Root, MaxSteps: in.MaxSteps, Deadline: dl, UseCache: !in.NoCache}
+		if rlog != nil {
+			e.End = func(s *mc.Sched) {
+				for _, rep := range rlog.collect() {
+					if !rep.lib {
+						harnessOnlyReports++
+						continue
+					}
+					s.Viol = append(s.Viol, mc.Violation{Rule: "C15/race", Key: rep.sig, Msg: "data race between " + rep.sig + "\n" + rep.text})
+					s.OutcomeStr += ";race:" + rep.sig
+				}
+			}
+		}
 		res := e.Explore()
 		r.Execs += res.Execs
 		r.Steps += res.Steps
@@ -207,8 +224,17 @@ func doReplay(path string) int {
 		}
 		return 1
 	}
+	addRaces := func(s *mc.Sched) {
+		for _, rep := range rlog.collect() {
+			if rep.lib {
+				s.Viol = append(s.Viol, mc.Violation{Rule: "C15/race", Key: rep.sig, Msg: "data race between " + rep.sig + "\n" + rep.text})
+			}
+		}
+	}
 	s1 := mc.Replay(in.Root, rp.Choices, in.MaxSteps)
+	addRaces(s1)
 	s2 := mc.Replay(in.Root, rp.Choices, in.MaxSteps)
+	addRaces(s2)
 	if s1.Diverged != "" || s2.Diverged != "" {
 		fmt.Printf("DIVERGED: %s %s\n", s1.Diverged, s2.Diverged)
 		return 3
@@ -224,7 +250,7 @@ func doReplay(path string) int {
 	hit := false
 	for _, v := range s1.Viol {
 		fmt.Printf("VIOLATION-OBSERVED %s [%s]: %s\n", v.Rule, v.Key, v.Msg)
-		if v.Rule == rp.Rule {
+		if v.Rule == rp.Rule && (rp.Rule != "C15/race" || v.Key == rp.Key) {
 			hit = true
 		}
 	}
